@@ -273,3 +273,38 @@ impl VHDLServer {
         }))
     }
 }
+
+/// Entry point for external verification harnesses (only with `--cfg vhdl_ls_rust_hdl_verif`).
+#[cfg(vhdl_ls_rust_hdl_verif)]
+pub(crate) mod verif_hooks {
+    use vhdl_lang::{Position, Range};
+
+    fn range(r: [u32; 4]) -> Range {
+        Range::new(Position::new(r[0], r[1]), Position::new(r[2], r[3]))
+    }
+
+    /// Run the delta encoder on raw `(range, token_type, modifiers)` triples.
+    pub fn encode(tokens: &[([u32; 4], u32, u32)], filter: Option<[u32; 4]>) -> Vec<[u32; 5]> {
+        let tokens: Vec<super::CachedToken> = tokens
+            .iter()
+            .map(|(r, token_type, modifiers)| super::CachedToken {
+                range: range(*r),
+                token_type: *token_type,
+                modifiers: *modifiers,
+            })
+            .collect();
+        let filter = filter.map(range);
+        super::encode(&tokens, filter.as_ref())
+            .into_iter()
+            .map(|t| {
+                [
+                    t.delta_line,
+                    t.delta_start,
+                    t.length,
+                    t.token_type,
+                    t.token_modifiers_bitset,
+                ]
+            })
+            .collect()
+    }
+}
